@@ -74,6 +74,7 @@ THEOREMS = [
     "JanetModel.Props.C11.phys_parseAll_safe",
     "JanetModel.Props.C11.phys_history_safe",
     "JanetModel.Props.C11.token_scratch_nonempty",
+    "JanetModel.Props.C11.phys_machine_source_ops",
     "JanetModel.Props.C11.stack_push_in_bounds",
     "JanetModel.Props.C11.capacity_invariant",
     "JanetModel.Props.C11.consume_capacity",
